@@ -7,7 +7,7 @@ CTXS = ["segwitv0", "tap", "legacy", "bare"]
 
 
 def run(name, gen, cmd, trace, tier, seed, ctxs=CTXS, maxnodes=None, extra_cfg=None, extra_defs=None,
-        count_event=None, sample_event=None, gen_heap="8g", trace_workers=10, universe=None):
+        count_event=None, sample_event=None, gen_heap="8g", trace_workers=10, universe=None, trace_env=None, post=None):
     """count_event(e, stats) updates counters; sample_event(e) -> sample or None"""
     wd = workdir(name + "_" + tier)
     build_harness()
@@ -49,7 +49,8 @@ def run(name, gen, cmd, trace, tier, seed, ctxs=CTXS, maxnodes=None, extra_cfg=N
                     s = sample_event(e)
                     if s is not None:
                         stats["samples"].append(s)
-        r = tlc(wd, trace, trace + ".cfg", env={"TRACE": obs}, workers=trace_workers, heap="12g", timeout=3300)
+        r = tlc(wd, trace, trace + ".cfg", env=dict({"TRACE": obs}, **(trace_env or {})), workers=trace_workers, heap="12g", timeout=3300)
+        stats.setdefault("tagged", {})[ctx] = {t: r.tagged(t) for t in ("RUNS",)}
         done = r.tagged("TRACE_DONE")
         if not r.ok or not done or done[0][1] != nev or done[0][2] < nev + 1:
             log(r.out[-4000:])
@@ -62,5 +63,8 @@ def run(name, gen, cmd, trace, tier, seed, ctxs=CTXS, maxnodes=None, extra_cfg=N
         stats["transitions"] += r.generated
         stats["per_ctx"][ctx] = {"gen": g[1:], "events": nev, "trace_s": round(r.secs, 1)}
         log("%s %s: %d events, %d verdict lines (%.1fs)" % (trace, ctx, nev, len(vs), r.secs))
+    if post:
+        post(wd, u, stats)
+    stats.pop("tagged", None)
     stats["wall"] = time.time() - t0
     return {"verdicts": verdicts, "stats": stats, "wd": wd}
